@@ -159,7 +159,17 @@ def sort_execs(maxlen, values=(1, 2, 3, 4), per_exec=40):
     return execs
 
 
+def op_histogram(executions):
+    h = {}
+    for e in executions:
+        for line in e:
+            op = line.split()[0]
+            h[op] = h.get(op, 0) + 1
+    return dict(sorted(h.items()))
+
+
 def check_executions(ctx, binary, executions, tag):
+    ctx.notes["ops_" + tag] = op_histogram(executions)          # vacuity: which operations this source really exercises
     return vlib.check_executions(ctx, binary, executions, tag, SPECDIR, "RefSeqTrace", "RefSeqTrace.cfg", key_of)
 
 
@@ -173,6 +183,11 @@ def graph_replay(ctx, binary, module, cfg, tag, timeout=1500, xmx="6g", first=No
     os.remove(dot)
     execs = [(first or []) + [label_to_op(*st) for st in w] for w in walks]
     ctx.notes["graph_edges_replayed_" + tag] = nedges
+    taken = set(st[1][0] for w in walks for st in w)
+    want = {"new", "reserve", "append", "resize", "rmidx", "rmat", "rmfront", "rmback", "clear", "find", "front", "back"} \
+        if tag == "array1" else {"append", "appendall", "copy", "assign", "swap"}
+    if not want <= taken:
+        ctx.broken.append("%s(%s): actions never taken: %s" % (module, cfg, sorted(want - taken)))
     check_executions(ctx, binary, execs, tag)
 
 
